@@ -154,7 +154,11 @@ pub fn run(tier: &str) -> i32 {
                 let mut v = img.clone();
                 v.resize(l, 0);
                 let cfg = im.cfg;
-                jobs.push((format!("truncated/{iname}/len{l}"), Box::new(move || open_case(cfg, MemBackend::from_image(v.clone()), true, None))));
+                // three families, because the unchanged tree behaves differently on them (see
+                // known_findings.json): files shorter than the 320-byte header, truncated crash
+                // images (layout recomputed from the file length), truncated clean images
+                let fam = if l < 320 { "truncated-below-header" } else if iname == "dirty" { "truncated-dirty" } else { "truncated-clean" };
+                jobs.push((format!("{fam}/{iname}/len{l}"), Box::new(move || open_case(cfg, MemBackend::from_image(v.clone()), false, None))));
             }
         }
         // (5) repair aborted by the callback at each of its invocations (dirty image)
@@ -335,7 +339,7 @@ pub fn run(tier: &str) -> i32 {
     }
     rep.cov("samples", samples);
     rep.cov("exhaustive", json!(true));
-    rep.assumptions.push("truncated files are not among the failing opens the property quantifies over (bad magic, bad geometry, aborted repair, injected I/O error): reads beyond the end of a file that was truncated behind redb's back are recorded in the outcome histogram ('read out of range') but not counted against the property; in the bad-geometry family they are".into());
+    rep.assumptions.push("truncated files are treated as failing opens too: a read beyond the current length counts against the property in every family (two classes of it are known findings on the unchanged tree)".into());
     rep.assumptions.push("the monitor is also active in every execution of every other check (C01..C19); a violation there is reported under that check".into());
     for (name, e) in &acc.fails {
         rep.violation(
